@@ -18,7 +18,16 @@
    `miss` = numbers of the current report interval (lastRep, hi) inside the history that were not received,
    `old`  = how many not-received numbers of the current interval have already left the history.
    interval loss = old + |miss|  =  |{n \in (lastRep, hi) : n not received}|  as long as no packet arrives
-   later than Hist behind the highest (such a packet is outside the history and has no effect). *)
+   later than Hist behind the highest (such a packet is outside the history and has no effect).
+
+   As-found model of the recorded finding C06.IntervalBeyondHistory (a NAMED deviation, not part of the property).
+   The code keeps the reception status in a ring of Hist bits indexed by number % Hist; `ring` is the set of slots
+   whose bit is set, maintained exactly as processRTP does (set the packet's own slot, THEN clear the slots of the
+   skipped numbers - which wipes the packet's own slot again after a jump of more than Hist).  generateReport counts
+   the numbers of (lastRep, hi) whose SLOT is clear: AsFoundLost.  While the interval is no longer than the history
+   both counts agree (lemma AsFoundAgrees of MC_ReceiverReport); beyond it the slots have been reused, the report is
+   wrong in exactly the way AsFoundLost says, and the trace validator accepts THAT value as the known finding and
+   nothing else - a different error in the same region is still a mismatch. *)
 EXTENDS Integers, FiniteSets, Sequences, TLC
 
 CONSTANTS M,      \* sequence-number modulus (65536)
@@ -31,8 +40,16 @@ Max(a, b) == IF a > b THEN a ELSE b
 Min(a, b) == IF a < b THEN a ELSE b
 Abs(a)    == IF a < 0 THEN -a ELSE a
 
-RFresh == [started |-> FALSE, hi |-> 0, lastRep |-> 0, miss |-> {}, old |-> 0, total |-> 0,
+RFresh == [started |-> FALSE, hi |-> 0, lastRep |-> 0, miss |-> {}, old |-> 0, total |-> 0, ring |-> {},
            J |-> 0, pTs |-> 0, pArr |-> 0, hasSr |-> FALSE, lsr |-> <<0, 0>>, srMs |-> 0]
+
+\* ---- the ring of the code (as found) ----
+Slot(n) == n % Hist
+\* delReceived for every number of a+1 .. b-1 (a < b): a slot is cleared iff one of these numbers maps to it
+RingClear(r, a, b) == LET n == b - a - 1 IN
+  IF n >= Hist THEN {} ELSE {sl \in r : (sl - Slot(a + 1)) % Hist >= n}
+\* how many numbers of a .. b map to slot sl
+CountCong(a, b, sl) == IF b < a THEN 0 ELSE ((b - sl) \div Hist) - ((a - 1 - sl) \div Hist)
 
 \* the highest moves forward by d (0 < d < H): the numbers in between become missing, what leaves the history
 \* while still unreported is remembered as a count
@@ -42,10 +59,11 @@ Forward(x, d) ==
       out   == {m \in x.miss : m <= edge}
       gapIn == Max(x.hi + 1, edge + 1) .. (nh - 1)
       gapOutN == Max(0, Min(nh - 1, edge) - x.hi)
-  IN [x EXCEPT !.hi = nh, !.miss = (x.miss \ out) \cup gapIn, !.old = x.old + Cardinality(out) + gapOutN]
+  IN [x EXCEPT !.hi = nh, !.miss = (x.miss \ out) \cup gapIn, !.old = x.old + Cardinality(out) + gapOutN,
+               !.ring = RingClear(x.ring \cup {Slot(nh)}, x.hi, nh)]
 
 \* a packet that is not newer than the highest: true number t <= hi
-Late(x, t) == IF t > x.hi - Hist THEN [x EXCEPT !.miss = @ \ {t}] ELSE x
+Late(x, t) == IF t > x.hi - Hist THEN [x EXCEPT !.miss = @ \ {t}, !.ring = @ \cup {Slot(t)}] ELSE x
 
 \* RFC 3550 A.8 in fixed point: D = |(arrival difference in RTP units) - (RTP time difference)|
 \* (elapsed ms * rate) \div 1000 computed as seconds * rate + (ms remainder * rate) \div 1000 (the same value, 32-bit safe)
@@ -54,7 +72,7 @@ JitterD(c, x, ts, arr) == Abs(Scale(arr - x.pArr, c.rate) - (ts - x.pTs))
 
 RtpStep(c, x, w, ts, arr) ==
   IF ~x.started
-  THEN [x EXCEPT !.started = TRUE, !.hi = w, !.lastRep = w - 1, !.pTs = ts, !.pArr = arr]
+  THEN [x EXCEPT !.started = TRUE, !.hi = w, !.lastRep = w - 1, !.pTs = ts, !.pArr = arr, !.ring = @ \cup {Slot(w)}]
   ELSE LET d == (w - x.hi) % M
            y == IF d > 0 /\ d < H THEN Forward(x, d) ELSE Late(x, x.hi - ((M - d) % M))
            D == JitterD(c, x, ts, arr)
@@ -82,6 +100,23 @@ ReportAccept(x, now, blk) ==
   /\ IF x.hasSr THEN Near(blk.dlsr, e.dlsr) ELSE blk.dlsr = 0
 
 ReportStep(x) == [x EXCEPT !.lastRep = x.hi, !.miss = {}, !.old = 0, !.total = NewTotal(x)]
+
+\* ---- what the code reports (as found): the numbers of (lastRep, hi) whose slot is clear ----
+RECURSIVE SetSlots(_, _, _, _)
+SetSlots(r, a, b, acc) == IF r = {} THEN acc
+                          ELSE LET sl == CHOOSE z \in r : TRUE IN SetSlots(r \ {sl}, a, b, acc + CountCong(a, b, sl))
+AsFoundLost(x) ==
+  IF Expected(x) = 0 THEN 0
+  ELSE (Expected(x) - 1) - SetSlots(x.ring, x.lastRep + 1, x.hi - 1, 0)
+AsFoundOut(x, now) ==
+  [ReportOut(x, now) EXCEPT !.frac = IF Expected(x) = 0 THEN 0 ELSE (256 * AsFoundLost(x)) \div Expected(x),
+                            !.tot = Min(x.total + AsFoundLost(x), Cap)]
+AsFoundAccept(x, now, blk) ==
+  LET e == AsFoundOut(x, now) IN
+  /\ blk.cyc = e.cyc /\ blk.seq = e.seq /\ blk.frac = e.frac /\ blk.tot = e.tot /\ blk.lsr = e.lsr
+  /\ Near(blk.jit, e.jit)
+  /\ IF x.hasSr THEN Near(blk.dlsr, e.dlsr) ELSE blk.dlsr = 0
+AsFoundStep(x) == [ReportStep(x) EXCEPT !.total = Min(x.total + AsFoundLost(x), Cap)]
 
 \* ---- deviation predicates (names used as tags in KNOWN_FINDINGS.jsonl) ----
 \* a report whose interval is longer than the reception history
